@@ -174,11 +174,18 @@ Record stored_view := {
 
 (* the stored response an exchange read, with the true instants of the origin call it came from
    (looked up through its X-Call field in the calls observed so far) *)
+Fixpoint events_until_read (evs : list event) : list event :=
+  match evs with
+  | [] => []
+  | EvGetEntry k true :: _ => []
+  | ev :: r => ev :: events_until_read r
+  end.
+
 Definition stored_of (prefix_events : list event) (o : exchange_obs) : option stored_view :=
   match read_entry_key (x_events o) with
   | None => None
   | Some k =>
-      match last_entry k (prefix_events ++ x_events o) None with
+      match last_entry k (prefix_events ++ events_until_read (x_events o)) None with
       | None => None
       | Some e =>
           match call_index (e_hdr e) with
@@ -282,6 +289,32 @@ Section Monitors.
     | _ => VNa
     end.
 
+  (* features of an unvalidated reuse, for telling violation classes apart:
+     served-as (HIT 1000 / STALE 2000) + 1 stored unqualified no-cache + 2 stale and must-revalidate
+     + 4 request no-cache + 8 request max-age exceeded + 16 only-if-cached + 32 max-stale
+     + 64 a background revalidation was started + 128 the origin was contacted in the foreground *)
+  Definition served_as : Z :=
+    match x_result o with
+    | Done (OResp r) =>
+        let v := hget status_header (p_hdr r) in
+        if beq v (bs "HIT") then 1000 else if beq v (bs "STALE") then 2000 else 0
+    | _ => 0
+    end.
+  Definition bit (b : bool) (w : Z) : Z := if b then w else 0.
+  Definition c02_code (s : stored_view) : Z :=
+    let cc := spec_cc (sv_hdr s) in
+    let rcc := spec_cc (q_hdr q) in
+    let now := x_t0 o in
+    served_as
+    + bit (sv_no_cache_unqualified cc) 1
+    + bit ((sv_life s <=? sv_age s now) && sd_has (bs "must-revalidate") cc) 2
+    + bit (sd_has (bs "no-cache") rcc) 4
+    + bit (match sd_duration (bs "max-age") rcc with Some m => m <? sv_age s now | None => false end) 8
+    + bit (sd_has (bs "only-if-cached") rcc) 16
+    + bit (sd_has (bs "max-stale") rcc) 32
+    + bit (existsb (fun ev => match ev with EvCall _ _ _ _ _ => true | _ => false end) (x_bg_events o)) 64
+    + bit (match fg_calls o with [] => false | _ => true end) 128.
+
   (* C02 — a response that needs validation is returned only after a 304 to the right conditional request *)
   Definition mon_C02 : verdict :=
     match the_stored with
@@ -289,7 +322,7 @@ Section Monitors.
     | Some s =>
         let nv := needs_validation s q (x_t0 o) in
         match the_how with
-        | FromStore => if nv then VBad 1 else VOk
+        | FromStore => if nv then VBad (c02_code s) else VOk
         | Validated i =>
             match find_call i (x_events o) with
             | Some (cq, _, _, _) =>
